@@ -860,13 +860,13 @@ func TestSim(t *testing.T) {
 			cfg.FairSteps = 60000
 			if w.Mode == "pipe" {
 				// the step budget follows the backlog: a value costs a bounded number of steps on its way through
-				// the pipe (measured < 10), so this only ends runs that really make no progress
+				// the pipe (measured < 10 under the random policies, about 20 under round-robin), so this only ends runs that really make no progress
 				n := 0
 				for _, k := range w.Writers {
 					n += k
 				}
 				if n > 4000 {
-					cfg.FairSteps = 60000 + 40*n
+					cfg.FairSteps = 60000 + 120*n
 				}
 			}
 			if cfg.SiteSample == 0 {
